@@ -179,7 +179,7 @@ def main(run):
     run.add("states", res.distinct)
     run.add("transitions", res.generated)
     hists = [[] for _ in progs]
-    for v in extract_tuples(res.out, "H"):
+    for v in extract_tuples(res.out, 'H"'):
         hists[v[1] - 1].append((v[2], v[3]))
     if res.violated and res.trace:
         # the counterexample itself is a history: replay it as well
